@@ -18,6 +18,39 @@ CLAIMED = {
              "(generated times are dyadic so it is). Termination of user callbacks that re-insert forever is not claimed (fuel).",
         technique="Lean 4 proof (induction over the event loop) + trace-equality correspondence with the real class",
         design='6/C20'),
+    'C10': dict(
+        text=("Lean theorems about the model of Grid/Coords identity (regular, separated incl. ragged, unstructured; Cartesian/polar): equality is reflexive, symmetric, transitive and characterised by equal system+kind+coordinates; equal grids feed identical bytes to the hash; copy, dict round trip and independent reconstruction are equal; grids differing in system, kind, dimension, size or any coordinate are unequal; "
+              "shift/scale/reverse change identity, and any store operation changes at most one existing object (copies untouched). Old ragged-equality and int-vs-float hash behaviours refuted. Tie: equality and hash-equality matrices over all live grids after every op of random histories; hash(g) must equal xxh64 of the model's hash input exactly."),
+        note=TRUST + " xxhash collisions are allowed by the property and not modelled; NaN/inf coordinates are outside the rational model; non-contiguous views (a NumPy memory-layout fact) are covered by the oracle only.",
+        technique="Lean 4 proof (decidable equality on a value model, frame theorem for the object store) + matrix correspondence with real grids",
+        design='6/C10'),
+    'C11': dict(
+        text=("Lean theorems: points of scaled/shifted/reversed/rotated grids are the images of the points under the affine map for regular, separated and unstructured coordinates (and polar scale/rotate); weights scale by the absolute Jacobian for per-axis factors of either sign, shift and reverse keep them (weights travel with their points); non-mutating forms are independent; regular weights sum to Π dims·|δ|; "
+              "subsample∘supersample = id; both focal-grid constructors contain the origin; over ℝ: Cartesian→polar→Cartesian round trip. Old signed-weights and reverse-weights behaviours refuted. Tie: exact comparison of points and weights of all live grids after every op."),
+        note=TRUST + " Polar/rotation theorems over ℝ are about specification functions tied to the code by the oracle only (tolerance 1e-9); rot2/rot3 are proved isometries fixing their axis, not 'rotation by atan2(s,c)'.",
+        technique="Lean 4 proof (list/affine algebra over ℚ and ℝ) + exact points/weights correspondence with real grids",
+        design='6/C11'),
+
+    'C09': dict(
+        text=("Lean theorems: the perfect coronagraph's projector I − T·T⁺ (Gram–Schmidt model over any ordered field, any grid, dependent modes allowed) nulls the span of the modes — hence aperture×polynomials of degree < order/2 and the flat wavefront —, is idempotent and never increases the ℓ² norm; the same three clauses for an arbitrary finite orthonormal family in any inner-product space (Bessel); mode count; "
+              "Lyot with transparent mask returns stop·E and occulted Lyot with opaque mask returns 0 for any linear F, B; the multi-scale level/window integer geometry (levels, per-level dims and extents, symmetric window padding iff the code does not raise). "
+              "NOT decided by a theorem: the vortex/FQPM '<1 % on-axis, >50 % at 10 λ/D' clause has no exact identity behind it and is only measured by the oracle on every run."),
+        note=TRUST + " Modelled assumption: NumPy's QR returns orthonormal columns spanning the modes and T⁺ = Tᴴ (its consequences are compared each run against the exact rational projector). Leakage/throughput thresholds of discretised phase masks are measured, not proved (DESIGN.md section 8).",
+        technique="Lean 4 proof (projector algebra, Bessel inequality, integer level geometry) + exact-projector correspondence; numeric measurement for the vortex/FQPM threshold clause (partial)",
+        design='6/C09 and 8'),
+    'C15': dict(
+        text=("Lean theorems: spectral shift theorem with the code's flat-index↔(ix,iy) map for every grid shape and additive character (swapped-axes version refuted on a 2×3 grid), whole-pixel shifts are exact index translations; each extrusion of the infinite layer moves every retained sample by exactly one pixel for any H×W and k-fold, direction agrees with the velocity convention; "
+              "replay after reset for every history (RNG as explicit value, deepcopy = equal independent stream), independent realisation only on request; phase ∝ 1/λ and ∝ sqrt(Cn²). Tie: bookkeeping (centre, t, extrusions, shifts) vs the real layers; oracle compares screens with screens on the real code (bitwise replay, overlap translation, scaling laws)."),
+        note=TRUST + " Not modelled: the statistics of the screens, the AR coefficients, NumPy's generator bit-stream. Independence theorems are stated for the finite layer only.",
+        technique="Lean 4 proof (index theorems, state-machine replay by induction) + screen-vs-screen oracle and bookkeeping correspondence",
+        design='6/C15'),
+    'C16': dict(
+        text=("Lean theorems: row-major ravel/unravel, reshape, transpose and moveaxis round trips for every shape; from_dict∘to_dict = id for coords, grids, fields and dense/CSC mode bases (storage kind preserved); pickle round trip; the FITS field and mode-basis paths (image layout with tensor and grid axes, CSC↔dense) round-trip for every tensor shape, grid kind and grid shape; old read paths refuted by counterexamples. "
+              "Tie: real to_dict trees and FITS image contents compared with the model; oracle performs real asdf/fits/fits.gz/pickle file round trips with before/after snapshots."),
+        note=TRUST + " asdf/FITS/pickle byte formats are exercised, not proved. to_dict purity is definitional in the functional model; the real guarantee is the harness's before/after snapshot.",
+        technique="Lean 4 proof (index-map round trips, structural recursion over trees) + real file round-trip oracle",
+        design='6/C16'),
+
     'C03': dict(
         text=("Lean theorems (HcipyVerif.Fraunhofer): the lens propagator's result equals 1/(i*lambda*f) times the weighted Fourier sum on "
               "the focal grid scaled by 2*pi/(lambda*f) (any dimension, tensor component, wavelength-dependent focal length), power "
